@@ -14,7 +14,7 @@ from overlay import Overlay
 HERE = os.path.dirname(os.path.abspath(__file__))
 VERIF = os.path.dirname(HERE)
 REPO = os.environ.get("VERIF_REPO", "/repo")
-CONTRACTS = os.path.join(VERIF, "contracts")
+CONTRACTS = os.environ.get("VERIF_CONTRACTS") or os.path.join(VERIF, "contracts")
 DEPS = os.path.join(VERIF, ".cache", "deps", "target", "debug", "deps")
 VC_ORDER = ["lib.vc", "necessity.vc", "element.vc", "parser.vc"]
 
@@ -74,7 +74,7 @@ def verus_cmd(extra=()):
             "--extern", "log=" + rlib("log"),
             "--extern", "convert_string=" + rlib("convert_string"),
             "--triggers-mode", "silent", "--output-json", "--time", "--error-format=json",
-            "--multiple-errors", "20"] + (list(extra) if "--num-threads" in extra else ["--num-threads", str(min(16, os.cpu_count() or 4))] + list(extra))
+            "--multiple-errors", "20", "--rlimit", "40"] + (list(extra) if "--num-threads" in extra else ["--num-threads", str(min(16, os.cpu_count() or 4))] + list(extra))
 
 
 class VerusResult:
